@@ -87,3 +87,194 @@ def runSerial (failFast : Bool) (files : List (Ground × Bool)) : SerialState :=
 def exitOk (s : SerialState) : Bool := s.failed == 0 && !s.cancelled
 
 end Slt
+
+namespace Slt
+
+/-! ### the parallel driver and cancellation as a monitored event log -/
+
+/-- events observable from outside: the fake engine's log (sessions are engine processes) and the
+    cancellation anchor inserted by the harness (signal sent / failing file closed, plus slack) -/
+inductive CEv
+  | create (db : Str)                    -- management session: `CREATE DATABASE db;`
+  | drop (db : Str)                      -- management session: `DROP DATABASE db;`
+  | connect (sess : Nat) (db : Str)      -- an engine process started for database `db`
+  | sql (sess : Nat) (text : Str)        -- it received a request
+  | eof (sess : Nat)                     -- it saw end-of-file on its stdin (closed by the CLI)
+  | cancel                               -- from here on no new test-file session may start
+  deriving DecidableEq, Repr
+
+structure CFile where
+  path : Str
+  failed : Bool            -- reported as failure (its database is kept under keep-on-failure)
+  deriving DecidableEq, Repr
+
+structure MonCfg where
+  jobs : Nat               -- 0 = serial mode (no per-file databases, no bound to check)
+  keep : Bool              -- --keep-db-on-failure
+  mgmtDb : Str             -- database of the management / serial sessions (`--db`)
+  files : List CFile
+
+structure MonState where
+  created : List Str := []
+  dropped : List Str := []
+  sessions : List (Nat × Str) := []      -- open sessions and their database
+  closed : List Nat := []
+  cancelled : Bool := false
+  deriving Repr
+
+inductive Violation
+  | useBeforeCreate (db : Str)           -- a session for a database that was not created (or already dropped)
+  | duplicateCreate (db : Str)           -- database names must be unique within the run
+  | foreignSql (db : Str) (text : Str)   -- SQL of another file reached this file's database
+  | wrongDatabaseVar (db : Str) (text : Str)  -- `$__DATABASE__` did not expand to the file's database
+  | tooManyInFlight (n : Nat)
+  | dropWhileOpen (db : Str)
+  | dropUnknown (db : Str)               -- dropped twice / never created
+  | notDropped (db : Str)
+  | droppedThoughKept (db : Str)
+  | sessionNotClosed (sess : Nat)
+  | unknownSession (sess : Nat)
+  | startAfterCancel (db : Str)
+  deriving DecidableEq, Repr
+
+/-- the file a database belongs to: its name is `testCaseName path ++ "_" ++ 8 characters` -/
+def fileOfDb (cfg : MonCfg) (db : Str) : Option CFile :=
+  cfg.files.find? (fun f => decide (db.length = (testCaseName f.path).length + 9) &&
+    (testCaseName f.path ++ ['_']).isPrefixOf db)
+
+def lookupSess (l : List (Nat × Str)) (s : Nat) : Option Str :=
+  match l with
+  | [] => none
+  | (k, d) :: rest => if k = s then some d else lookupSess rest s
+
+/-- every SQL line of a generated test file ends in ` -- F<path>`: the file it was written in -/
+def sqlOwner (text : Str) : Option Str :=
+  let marker := kw " -- F"
+  let rec go : Str → Option Str
+    | [] => none
+    | c :: cs => if marker.isPrefixOf (c :: cs) then some ((c :: cs).drop marker.length) else go cs
+  go text
+
+def dedupS : List Str → List Str
+  | [] => []
+  | a :: rest => if rest.contains a then dedupS rest else a :: dedupS rest
+
+/-- databases that currently have at least one open session -/
+def inFlight (st : MonState) (mgmt : Str) : List Str :=
+  dedupS ((st.sessions.map (·.2)).filter (· ≠ mgmt))
+
+def monStep (cfg : MonCfg) (st : MonState) : CEv → Except Violation MonState
+  | .create db =>
+    if st.created.contains db then .error (.duplicateCreate db)
+    else .ok { st with created := st.created ++ [db] }
+  | .drop db =>
+    if !st.created.contains db || st.dropped.contains db then .error (.dropUnknown db)
+    else if st.sessions.any (fun p => p.2 = db) then .error (.dropWhileOpen db)
+    else .ok { st with dropped := st.dropped ++ [db] }
+  | .connect s db =>
+    if db = cfg.mgmtDb then .ok { st with sessions := st.sessions ++ [(s, db)] }
+    else if cfg.jobs > 0 ∧ (!st.created.contains db || st.dropped.contains db) then
+      .error (.useBeforeCreate db)
+    else if st.cancelled then .error (.startAfterCancel db)
+    else
+      let st' := { st with sessions := st.sessions ++ [(s, db)] }
+      if cfg.jobs > 0 ∧ (inFlight st' cfg.mgmtDb).length > cfg.jobs then
+        .error (.tooManyInFlight (inFlight st' cfg.mgmtDb).length)
+      else .ok st'
+  | .sql s text =>
+    match lookupSess st.sessions s with
+    | none => .error (.unknownSession s)
+    | some db =>
+      if db = cfg.mgmtDb ∧ cfg.jobs > 0 then .ok st
+      else
+        -- exclusive use: the text was written in the file this database was created for
+        let ownerOk := match sqlOwner text, fileOfDb cfg db with
+          | some o, some f => decide (o = f.path)
+          | some _, none => cfg.jobs == 0
+          | none, _ => true
+        if !ownerOk then .error (.foreignSql db text)
+        else if (kw "dbname ").isPrefixOf text ∧
+            !((kw "dbname " ++ db ++ kw " -- F").isPrefixOf text) then
+          .error (.wrongDatabaseVar db text)
+        else .ok st
+  | .eof s =>
+    match lookupSess st.sessions s with
+    | none => .error (.unknownSession s)
+    | some _ => .ok { st with sessions := st.sessions.filter (fun p => p.1 ≠ s), closed := st.closed ++ [s] }
+  | .cancel => .ok { st with cancelled := true }
+
+def monRun (cfg : MonCfg) : MonState → List CEv → Except Violation MonState
+  | st, [] => .ok st
+  | st, e :: es =>
+    match monStep cfg st e with
+    | .error v => .error v
+    | .ok st' => monRun cfg st' es
+
+/-- end of the run: every session closed; every created database dropped, except — under
+    keep-on-failure — those of failed files, which must be kept -/
+def monFinish (cfg : MonCfg) (st : MonState) : Option Violation :=
+  match st.sessions with
+  | (s, _) :: _ => some (.sessionNotClosed s)
+  | [] =>
+    let check (db : Str) : Option Violation :=
+      let kept := cfg.keep && ((fileOfDb cfg db).map (·.failed)).getD false
+      if kept then (if st.dropped.contains db then some (.droppedThoughKept db) else none)
+      else (if st.dropped.contains db then none else some (.notDropped db))
+    st.created.findSome? check
+
+/-- the whole monitor -/
+def accepts (cfg : MonCfg) (log : List CEv) : Option Violation :=
+  match monRun cfg {} log with
+  | .error v => some v
+  | .ok st => monFinish cfg st
+
+/-! ### the report: exit status, status tags, JUnit -/
+
+structure FileReport where
+  path : Str
+  ground : Ground                  -- what the file does when run to completion
+  tag : Option FileResult          -- status printed on stdout
+  junitName : Option Str           -- name of its JUnit test case
+  junitStatus : Option JStatus
+  deriving DecidableEq, Repr
+
+inductive ReportViolation
+  | okButFails (path : Str)            -- reported ok, but the file does not pass
+  | failedButPasses (path : Str)       -- reported failure, but the file passes
+  | noStatus (path : Str)
+  | junitMissing (path : Str)
+  | junitName (path : Str)
+  | junitStatus (path : Str)
+  | skippedWithoutCause (path : Str)   -- skipped / cancelled although nothing cancelled the run
+  | exitZero                            -- exit 0 although not every file was reported ok
+  | exitNonZero                         -- exit ≠ 0 although every file was reported ok
+  | junitCount (n : Nat)
+  deriving DecidableEq, Repr
+
+/-- `cancelCause`: a Ctrl-C was sent, or fail-fast with some failure, or a connection was refused -/
+def checkReport (exitCode : Nat) (cancelCause : Bool) (junitCases : Nat) (rs : List FileReport) :
+    Option ReportViolation :=
+  let per (r : FileReport) : Option ReportViolation :=
+    match r.tag with
+    | none => some (.noStatus r.path)
+    | some t =>
+      if t = .ok ∧ r.ground ≠ .pass then some (.okButFails r.path)
+      else if t = .err ∧ r.ground = .pass then some (.failedButPasses r.path)
+      else if (t = .skipped ∨ t = .cancelled) ∧ !cancelCause then some (.skippedWithoutCause r.path)
+      else match r.junitName, r.junitStatus with
+        | some n, some s =>
+          if n ≠ testCaseName r.path then some (.junitName r.path)
+          else if s ≠ t.junit then some (.junitStatus r.path)
+          else none
+        | _, _ => some (.junitMissing r.path)
+  match rs.findSome? per with
+  | some v => some v
+  | none =>
+    if junitCases ≠ rs.length then some (.junitCount junitCases)
+    else
+      let allOk := rs.all (fun r => r.tag = some .ok)
+      if allOk ∧ exitCode ≠ 0 then some .exitNonZero
+      else if !allOk ∧ exitCode = 0 then some .exitZero
+      else none
+
+end Slt
